@@ -4,11 +4,16 @@
 mod auth_driver;
 #[allow(dead_code)]
 mod cases;
+mod dissem_driver;
+mod execstate_driver;
 mod graph;
 mod merkle_driver;
 mod pool_driver;
+mod sim;
 mod sampler_driver;
+mod shred_driver;
 mod votor_driver;
+mod wire_driver;
 mod world;
 
 use serde_json::{Value, json};
@@ -29,6 +34,7 @@ fn main() -> anyhow::Result<()> {
         .unwrap_or(1);
     let out: Value = match cmd {
         "replay-auth" => auth_driver::run(&args, seed)?,
+        "replay-execstate" => execstate_driver::run(&args, seed)?,
         "replay-pool" => {
             let path = arg_after(&args, "--tlc-out").expect("--tlc-out");
             let stakes: Vec<u64> = arg_after(&args, "--stakes")
@@ -68,6 +74,51 @@ fn main() -> anyhow::Result<()> {
             merkle_driver::run(&path)?
         }
         "replay-sampler" => sampler_driver::run(&args, seed)?,
+        "replay-shred" => shred_driver::run(&args, seed)?,
+        "replay-wire" => wire_driver::replay(
+            &arg_after(&args, "--tlc-out").expect("--tlc-out"),
+            seed,
+            arg_after(&args, "--threads").and_then(|s| s.parse().ok()).unwrap_or(4),
+        )?,
+        "sim" => {
+            // one simulated run -> NDJSON trace file + summary
+            let list = |name: &str| -> Vec<usize> {
+                arg_after(&args, name)
+                    .map(|s| s.split(',').filter(|x| !x.is_empty()).map(|x| x.parse().unwrap()).collect())
+                    .unwrap_or_default()
+            };
+            let num = |name: &str, d: u64| -> u64 {
+                arg_after(&args, name).and_then(|s| s.parse().ok()).unwrap_or(d)
+            };
+            let cfg = sim::SimConfig {
+                stakes: arg_after(&args, "--stakes").expect("--stakes").split(',').map(|x| x.parse().unwrap()).collect(),
+                byz: list("--byz"),
+                byz_mode: arg_after(&args, "--byz-mode").unwrap_or_else(|| "silent".into()),
+                crashed: list("--crashed"),
+                crash_at_ms: num("--crash-at", 0),
+                seed,
+                gst_ms: num("--gst", 0),
+                chaos_ms: num("--chaos", 2000),
+                drop_pm: num("--drop", 0) as u32,
+                dup_pm: num("--dup", 0) as u32,
+                delta_ms: num("--delta", 100),
+                run_ms: num("--run", 20000),
+            };
+            let out_path = arg_after(&args, "--out").expect("--out");
+            let (events, summary) = sim::run(&cfg)?;
+            let mut text = String::new();
+            for e in &events {
+                text.push_str(&e.to_string());
+                text.push('\n');
+            }
+            std::fs::write(&out_path, text)?;
+            summary
+        }
+        "replay-dissem" => dissem_driver::run(
+            &arg_after(&args, "--out").expect("--out"),
+            &arg_after(&args, "--tier").unwrap_or_else(|| "quick".to_string()),
+            seed,
+        )?,
         _ => json!({"error": format!("unknown command {cmd}")}),
     };
     println!("{}", serde_json::to_string(&out)?);
